@@ -61,7 +61,13 @@ FormsOK ==
   /\ (g.f = "none") = (Len(heap[Root].kids) = 0)
   /\ (g.f = "emb") = (Len(heap[Root].kids) = 1 /\ heap[heap[Root].kids[1]].t = "L")
 
+\* a one-leaf tree whose leaf is a stored object (it has an oid) refers to it instead of embedding it
+RootStateWithStoredLeaf(h) ==
+  LET n == h[Root] IN
+  IF Len(n.kids) = 1 /\ h[n.kids[1]].t = "L"
+    THEN [f |-> "node", kids |-> <<LeafStateV(h, n.kids[1])>>, seps |-> <<>>, fb |-> LeafIdx(h, n.fb)]
+    ELSE GetStateV(h, Root)
 DumpS == PrintT(<<"TR", ToJson([from |-> Proj(heap, Root), act |-> act', res |-> res'.impl,
-                                to |-> Proj(heap', Root), gs |-> GetStateV(heap', Root),
+                                to |-> Proj(heap', Root), gs |-> GetStateV(heap', Root), gso |-> RootStateWithStoredLeaf(heap'),
                                 rt |-> Proj(RoundTrip(heap'), Root)])>>)
 =============================================================================
